@@ -531,6 +531,9 @@ class DigitalWaveform(Generic[TDigitalState]):
         line_data = port_to_line_data(port_data, mask, bitorder)
         if line_data.dtype != dtype:
             line_data = line_data.view(dtype)
+        # The unpacked line data is a view (or, with a mask, a Fortran-ordered selection) of a
+        # temporary array. Give the waveform a C-ordered array of its own so that it can grow.
+        line_data = np.require(line_data, requirements=["C", "O"])
 
         return cls(
             data=line_data,
@@ -682,6 +685,8 @@ class DigitalWaveform(Generic[TDigitalState]):
             )
             if line_data.dtype != dtype:
                 line_data = line_data.view(dtype)
+            # See from_port: the waveform needs a C-ordered array of its own to be able to grow.
+            line_data = np.require(line_data, requirements=["C", "O"])
 
             waveforms.append(
                 cls(
